@@ -82,7 +82,7 @@ def make_oracle(ck):
 def run(ck):
     ck.prove(["Properties_C08", "Properties_C08b"], THEOREMS_A + THEOREMS_B)
     exe = small_driver(ck)
-    differential(ck, exe, gen_cases(ck), make_oracle(ck), env=small_env(ck))
+    differential(ck, exe, gen_cases(ck), make_oracle(ck), env=small_env(ck), src=True)
     # tag field of real encrypted files
     cases = enc_cases(ck, 400 if ck.tier == "thorough" else 80)
     lines = ["e%d %s" % (i, c.line()) for i, c in enumerate(cases)]
